@@ -209,7 +209,9 @@ def run(sc, chooser, max_steps=8000):
                                            fault=st.get('fault'))
         return None
     svc.stream_plan = stream_plan
-    client = fakes3.make_client(svc, retries=1)
+    api_calls = []
+    client = fakes3.make_client(svc, retries=1,
+                                on_params=lambda op, p: api_calls.append((op, p)))
 
     def path2x(p):
         b = os.path.basename(p)
@@ -313,6 +315,7 @@ def run(sc, chooser, max_steps=8000):
                 s.emit('Call', x=x)
                 futs[x] = dl.download_file(
                     BUCKET, f'k{x}', paths[x],
+                    extra_args=(dict(d['extra_args']) if d.get('extra_args') else None),
                     expected_size=d['size'] if d.get('known') else None)
                 s.emit('Ret', x=x)
             if cancel and cancel['how'] == 'future':
@@ -369,7 +372,7 @@ def run(sc, chooser, max_steps=8000):
     return {'events': events, 'results': results, 'failure': s.failure,
             'failure_info': s.failure_info, 'thread_errors': [
                 (n, repr(e), tb[-1500:]) for n, e, tb in s.thread_errors],
-            'steps': s.step, 'choices': s.choices}
+            'steps': s.step, 'choices': s.choices, 'api_calls': api_calls}
 
 
 def jobs_of(size, cfg):
